@@ -217,6 +217,10 @@ func main() {
 		{name: "P3-deactivate-reactivate", initial: 3, resume: 1, grow: []bool{false}, maxFail: 4, resub: 2},
 		{name: "P4-close", initial: 2, resume: 1, grow: []bool{false, false}, maxFail: 1, closer: true},
 		{name: "P6-full-blocks-batches-cut-by-size", initial: 6, resume: 1, grow: []bool{false, false}, maxFail: 1, blockSize: 400 * 1024},
+		// a backlog of several batches (10 headers each), the last batch refused three times in a row (each retry is
+		// driven by a new record arriving after the back-off), deactivation, re-registration: the replacement task
+		// must resume from the progress that was acknowledged batch by batch
+		{name: "P7-backlog-of-several-batches-deactivate-reactivate", initial: 25, resume: 1, grow: []bool{false, false, false, false}, growGapMs: 3000, maxFail: 3, resub: 3},
 		{name: "P5-reregister-during-backoff", initial: 3, resume: 1, grow: []bool{false, false, false, false}, maxFail: 2, resub: 3, resubGap: 1, failSleep: 4, growGapMs: 700},
 	}
 	bound := r.Pick(4, 6)
